@@ -43,6 +43,8 @@ TxtClass(id, lead, pylit, js, syntax, evalok, adv) ==
 EmptyTxt == TxtClass("empty", "none", FALSE, FALSE, FALSE, FALSE, FALSE)
 
 \* f: argv syntax argv : "ok" | "badindent" (--indent x) | "toomany" (3 positionals) | "unknownflag"
+\*                       | "flagafter" (flags after the positionals: they count as positionals)
+\*                       | "dupflag" (an option given twice) | "dashdash" ("--" before the positionals)
 \* s: spec side   arg  : first positional  "none" | "text" | "empty" ('' given)
 \*                file : --spec-file       "none" | "ok" | "unreadable" | "dash" (there is no stdin route)
 \*                ext  : extension of the spec file name: ".py" ".json" ".yml" ".toml" ".txt" "" | "any" | "-"
@@ -55,7 +57,8 @@ EmptyTxt == TxtClass("empty", "none", FALSE, FALSE, FALSE, FALSE, FALSE)
 \* l: loading     fmt  : --target-format   "default" | "json" | "python" | "yaml" | "toml" | "bad"
 \*                txt  : class of every non-empty target text  "good" | "malformed"
 \* r: library     res  : what glom(target, spec) does: "coll" | "str" | "int" | "float" | "other"
-\*                       (None / bool) | "glomerr";  dbg: "off" | "debug" (--debug) | "inspect" (--inspect)
+\*                       (None / bool / inf) | "glomerr" | a result json.dumps cannot serialise:
+\*                       "xscalar" (bytes, date, time) | "xcoll" (set, container holding one);  dbg: "off" | "debug" (--debug) | "inspect" (--inspect)
 \* p: printing    indent: "default" | "0" | "1" | "4";  scalar: "on" | "off"
 Cfg0 == [f |-> [argv |-> "ok"],
          s |-> [arg |-> "none", file |-> "none", ext |-> "-", fmt |-> "default", txt |-> EmptyTxt],
@@ -133,7 +136,8 @@ LawIndent(c) == CASE c.p.indent = "default" -> "2" [] c.p.indent = "0" -> "none"
 LawOutcomeR(c, res) ==
   LET rt == LawSpec(c) ch == LawChannel(c) f == NormT(c.l.fmt) IN
   \* usage line "[FLAGS] [spec [target]]", "--indent INDENT number of spaces": anything else is a usage error
-  IF c.f.argv # "ok" THEN LawRec("argv", NoOut, "usage")
+  IF c.f.argv \in {"badindent", "toomany", "unknownflag", "flagafter"} THEN LawRec("argv", NoOut, "usage")
+  ELSE IF c.f.argv # "ok" THEN LawNone        \* repeated option, "--": the documentation is silent
   ELSE IF rt = "unspecified" \/ ch = "unspecified" THEN LawNone
   ELSE IF ch = "file" /\ c.t.file = "unreadable" THEN LawRec("usage", NoOut, "usage")
   ELSE LET empty == ChannelEmpty(c, ch)
@@ -142,6 +146,7 @@ LawOutcomeR(c, res) ==
        IF ~empty /\ f = "bad" THEN LawNone                 \* only the four documented formats
        ELSE IF ~empty /\ c.l.txt = "malformed" THEN LawRec("usage", NoOut, "usage")
        ELSE IF res = "na" THEN LawRec("machinery", UnspecOut, "unspec")
+       ELSE IF res \in {"xscalar", "xcoll"} THEN LawNone  \* json.dumps(result) is not defined
        ELSE IF c.r.dbg = "inspect" THEN LawNone            \* interactive breakpoint
        ELSE IF res = "glomerr" /\ c.r.dbg = "debug" THEN LawNone      \* interactive post-mortem
        ELSE IF res = "glomerr" THEN LawRec("glomerr", OutRec("errmsg", sl, ff, rt, "-"), "1")
@@ -292,7 +297,7 @@ OutFmt == IF m.tgt = "emptymap" THEN "-" ELSE TFmt
 \* --debug run is an ordinary run
 Dbg == m.cfg.r.dbg
 RunInspect == AtRun /\ Dbg = "inspect" /\ m' = End("RunInspect", UnspecOut, "unspec")
-RunOk == AtRun /\ Dbg # "inspect" /\ m.cfg.r.res \in {"coll", "str", "int", "float", "other"}
+RunOk == AtRun /\ Dbg # "inspect" /\ m.cfg.r.res \in {"coll", "str", "int", "float", "other", "xscalar", "xcoll"}
          /\ IF Mutant = "debugdrop" /\ Dbg = "debug" THEN m' = End("RunOk", NoOut, "0")
             ELSE m' = Do("RunOk", "print")
 RunGlomError == AtRun /\ Dbg = "off" /\ m.cfg.r.res = "glomerr"
@@ -307,12 +312,17 @@ IndentArg == CASE m.cfg.p.indent = "default" -> "2"
                [] m.cfg.p.indent = "0" -> (IF Mutant = "indent0" THEN "0" ELSE "none")
                [] OTHER -> m.cfg.p.indent
 \* `if scalar and is_scalar(result)`: anything that is not a collection
-ScalarKinds == {"str", "int", "float", "other"} \cup (IF Mutant = "scalarcoll" THEN {"coll"} ELSE {})
+ScalarKinds == {"str", "int", "float", "other", "xscalar"} \cup (IF Mutant = "scalarcoll" THEN {"coll"} ELSE {})
 PrintScalar == AtPrint /\ m.cfg.p.scalar = "on" /\ m.cfg.r.res \in ScalarKinds
                /\ m' = End("PrintScalar", OutRec("raw", OutSel, OutFmt, m.route, "-"), "0")
+\* json.dumps raises TypeError on a set / bytes / date: the exception escapes, nothing is printed
+PrintUnserializable == AtPrint /\ ~(m.cfg.p.scalar = "on" /\ m.cfg.r.res \in ScalarKinds)
+                       /\ m.cfg.r.res \in {"xscalar", "xcoll"}
+                       /\ m' = Crash("PrintUnserializable")
 PrintJson == AtPrint /\ ~(m.cfg.p.scalar = "on" /\ m.cfg.r.res \in ScalarKinds)
+             /\ m.cfg.r.res \notin {"xscalar", "xcoll"}
              /\ m' = End("PrintJson", OutRec("json", OutSel, OutFmt, m.route, IndentArg), "0")
-PrintResult == PrintScalar \/ PrintJson
+PrintResult == PrintScalar \/ PrintJson \/ PrintUnserializable
 
 CliNext == ParseArgv \/ ParseSpec \/ SelectTarget \/ LoadTarget \/ Run \/ PrintResult
 
